@@ -104,6 +104,9 @@ ATTRV = ["", "a", "b", "x", "a b", "b  a", "a-b", "ab", "A", "x y z", "en-US", "
 CI_ATTRS = {"type", "lang"}          # on the selectors crate's ASCII-case-insensitive HTML attribute list
 
 def hx(b): return (b if isinstance(b, bytes) else b.encode()).hex()
+def flip(rng, v):
+    """random ASCII case changes (case-insensitive operators: operand and value that differ only in case)"""
+    return "".join((ch.upper() if rng.randrange(2) else ch.lower()) if ch.isalpha() else ch for ch in v)
 def zi(v): return ("m%d" % -v) if v < 0 else str(v)
 
 def css_ident(s):
@@ -133,6 +136,10 @@ def gen_simple(rng, depth=0):
         n = rng.choice(ATTRN); v = rng.choice(ATTRV + ["a", "b", "x"]); op = rng.choice(["=", "~=", "|=", "^=", "*=", "$="])
         if v == "" and op in ("~=", "^=", "$=") and rng.randrange(4) and not FULL["on"]: v = "a"
         flag = rng.choice(["", "", "", " i", " s"])
+        if rng.randrange(5) == 0:
+            v = flip(rng, rng.choice(["a", "b", "ab", "a b", "en-us", "x y z", "a-b"])); flag = rng.choice([" i", " i", "", " s"])
+            if rng.randrange(3) == 0: n = rng.choice(["type", "lang", "TYPE"])
+            if rng.randrange(2): op = "*="
         opc = {"=": "e", "~=": "i", "|=": "d", "^=": "p", "*=": "s", "$=": "x"}[op]
         cs = "i" if flag == " i" else ("s" if flag == " s" else ("h" if n.lower() in CI_ATTRS else "s"))
         return ('[%s%s"%s"%s]' % (n, op, v, flag), "V%s%s:%s:%s" % (opc, cs, hx(n), hx(v)))
@@ -255,7 +262,11 @@ def l2_doc(rng, depth=0, foreign=False):
             attrs = b""
             for _ in range(rng.choice([0, 0, 1, 1, 2, 3])):
                 n = rng.choice(ATTRN); v = rng.choice(ATTRV)
+                if rng.randrange(6) == 0: v = flip(rng, v)
                 attrs += b" " + n.encode() + rng.choice([b"", b"=" + (v.replace(" ", "_") or "x").encode(), b'="' + v.encode() + b'"', b"='" + v.encode() + b"'"])
+            if rng.randrange(10) == 0:
+                # attribute names that are parse errors but still attributes (quotes, '<', leading '=' inside names; a stray quote after a value)
+                attrs += rng.choice([b' alt="foo""', b' b"c=2', b" it's=ok", b" d'=\"M0 0\"", b" =x", b" a=b=c", b" x<y=1", b' "', b" '=1", b' id="k"\' class=a'])
             sc = b"/" if foreign and rng.randrange(3) == 0 else b""
             close = rng.randrange(10)
             out += b"<" + t.encode() + attrs + sc + b">"
@@ -295,6 +306,7 @@ def tagsoup(rng):
             attrs = b""
             for _ in range(rng.choice([0, 0, 1, 1, 2, 3])):
                 nm = rng.choice(ATTRN); v = rng.choice(ATTRV)
+                if rng.randrange(6) == 0: v = flip(rng, v)
                 attrs += b" " + nm.encode() + rng.choice([b"", b"=" + (v.replace(" ", "_") or "x").encode(), b'="' + v.encode() + b'"', b"='" + v.encode() + b"'"])
             out += b"<" + t.encode() + attrs + rng.choice([b"", b"", b"", b"/", b" /"]) + b">"
         elif c < 15:
@@ -303,6 +315,24 @@ def tagsoup(rng):
             out += rng.choice([b"t", b"some text", b"<!--c-->", b"\n"])
         else:
             out += rng.choice([b"<title>a<b></title>", b"<script>1<a>2</script>", b"<textarea><p></textarea>", b"<!DOCTYPE html>"])
+    return out
+
+def pad_selectors(rng, toks, mk):
+    """many registered selectors (match-id sets beyond one machine word: 33..130 ids): the given selector tokens are spread
+    over random positions between filler selectors, some of which match common elements"""
+    total = rng.choice([33, 40, 63, 64, 65, 66, 70, 96, 97, 100, 129, 130])
+    fill = []
+    for k in range(total - len(toks)):
+        c = rng.randrange(10)
+        if c < 6: css, st = ("zz%d" % k, "T" + hx("zz%d" % k))
+        elif c < 7: css, st = ("*", "A")
+        elif c < 8: css, st = rng.choice([("div", "T" + hx("div")), ("p", "T" + hx("p")), ("a", "T" + hx("a")), ("span", "T" + hx("span"))])
+        elif c < 9: css, st = ("[class]", "E" + hx("class"))
+        else: css, st = ("zz%d *" % k, "T%s_A" % hx("zz%d" % k))
+        fill.append(mk(css, st))
+    pos = sorted(rng.sample(range(total), len(toks)))
+    out, it, fi = [], iter(toks), iter(fill)
+    for k in range(total): out.append(next(it) if k in pos else next(fi))
     return out
 
 def gen_c04(rng, n, prefix="s"):
@@ -316,6 +346,7 @@ def gen_c04(rng, n, prefix="s"):
             for _ in range(rng.choice([1, 2, 3, 4, 6])):
                 css, st = gen_selector(rng)
                 toks.append("sel=%s~%s~~-~-" % (hx(css), st))
+            if rng.randrange(25) == 0: toks = pad_selectors(rng, toks, lambda css, st: "sel=%s~%s~~-~-" % (hx(css), st))
             ch = chunkings(rng, data)
             yield "L2 %s%d isz=%d strict=0 %s ops=%s" % (prefix, i, isz, " ".join(toks), ",".join(["W" + c.hex() for c in ch] + ["E"]))
     finally:
@@ -334,6 +365,8 @@ def gen_c05(rng, n, prefix="d"):
             cm = rng.choice(["-", "", ""]); tx = rng.choice(["-", "a:", "l:", "n:"])
             if el == "-" and cm == "-" and tx == "-": tx = "a:"
             toks.append("sel=%s~%s~%s~%s~%s" % (hx(css), st, el, cm, tx))
+        if rng.randrange(20) == 0:
+            toks = pad_selectors(rng, toks, lambda css, st: ("sel=%s~%s~%s~%s~%s" % (hx(css), st, rng.choice(["", "", "oe:()", "-"]), rng.choice(["-", "-", ""]), rng.choice(["a:", "-", "-"]))).replace("~-~-~-", "~~-~-"))
         for _ in range(rng.choice([0, 1, 1, 2])):
             toks.append("doc=%s~%s~%s~%s" % (rng.choice(["-", ""]), rng.choice(["-", ""]), rng.choice(["-", "a:"]), rng.choice(["-", "", "h" + hx("<!--e-->")])))
         ch = chunkings(rng, data)
@@ -501,6 +534,14 @@ def gen_l2(rng, n, profile, prefix):
                 kv.update(mem=rng.choice([0, 50, 100, 200, 400, 832, 900, 1000, 1700, 2000]) + rng.randrange(40), bm=rng.randrange(2), bh=rng.randrange(2))
             for _ in range(rng.choice([0, 1, 2])):
                 toks.append("bail=" + ";".join(gen_chunk(rng) for _ in range(rng.choice([1, 2]))))
+        if profile == "fail" and rng.randrange(8) == 0:
+            # the document-end handler is the one that fails, on a document that stops in the middle of a token
+            toks = [t for t in toks if not t.startswith("doc=")] if rng.randrange(2) else []
+            toks.append("doc=-~-~-~" + rng.choice(["", "", gen_chunk(rng)]))
+            if toks[:-1] == []: kv.pop("mem", None); kv.update(fail=1, bh=rng.randrange(4) != 0, bm=rng.randrange(2))
+            kv["bh"] = int(kv.get("bh", 0)); 
+            if rng.randrange(4): data = data[:rng.randrange(1, len(data) + 1)] + rng.choice([b"<di", b"</di", b"<img alt=\"abc def", b"<!-- c", b"<a b", b"", b"<"])
+            if rng.randrange(2): toks.append("bail=" + gen_chunk(rng))
         ch = chunkings(rng, data)
         ops = ["W" + c.hex() for c in ch] + ["E"]
         if profile == "fail" and rng.randrange(2): ops += ["W" + b"<p>".hex()] * rng.randrange(1, 3)
